@@ -10,7 +10,7 @@ SPEC = dict(
           "real set_determinants visits; relabelled structures (chains renamed order-preservingly, numbers shifted incl. negative, "
           "insertion-coded residues renumbered, twin residues, a structure with its own copy under the same chain id) are run through "
           "the real pipeline and every group's pKa, desolvation and determinants compared by file position. "
-          "The whole scoring phase is modelled as well (Model/Scoring.lean: calculate_pka of one conformation with everything it calls - desolvation, backbone and ion determinants, backbone reorganisation, the pair loop with angle factors, exception rules and both families of pair rules, the iterative scheme, totals, coupling penalties and the removal of determinants towards penalised groups; parameters regenerated from /repo and read back from the compiled driver); its Float instance is compared with the real calculate_pka on every distinct conformation this check runs - counts, partners and order exactly, numbers to 1e-9 (they are bit-identical on the unchanged tree). score reads chain identifiers, residue numbers and printed labels only through three equality tests of the environment (same residue in the desolvation loop, Group.__eq__ in the coupling penalties, label equality when determinants towards penalised groups are removed): envOf_relabel_invariant / score_relabel_invariant show that renaming residue keys and labels by injective maps leaves the environment, hence every number, unchanged. Relabellings now include residue numbers that fill all four columns; coupling marks are compared by position; structures with coupled groups are also run with -d.",
+          "The whole scoring phase is modelled as well (Model/Scoring.lean: calculate_pka of one conformation with everything it calls - desolvation, backbone and ion determinants, backbone reorganisation, the pair loop with angle factors, exception rules and both families of pair rules, the iterative scheme, totals, coupling penalties and the removal of determinants towards penalised groups; parameters regenerated from /repo and read back from the compiled driver); its Float instance is compared with the real calculate_pka on every distinct conformation this check runs - counts, partners and order exactly, numbers to 1e-9 (they are bit-identical on the unchanged tree). score reads chain identifiers, residue numbers and printed labels only through three equality tests of the environment (same residue in the desolvation loop, Group.__eq__ in the coupling penalties, label equality when determinants towards penalised groups are removed): envOf_relabel_invariant / score_relabel_invariant show that renaming residue keys and labels by injective maps leaves the environment, hence every number, unchanged. Relabellings now include residue numbers that fill all four columns; coupling marks are compared by position; structures with coupled groups are also run with -d. The program tie runs on this check's relabelled texts through the scoring recorder (pipeline correspondence: chain identifiers and residue numbers of every atom as the program holds them); inputs include the symmetric disulfide of a homodimer (equal residue numbers in two chains) and a hetero residue without chain identifier that shares its number with a protein residue.",
     note="Partial: the whole-pipeline invariance is established by metamorphic runs, the theorems cover the label-reading sites that "
          "were modelled (parser keys, classifier, pair loops). Known finding (not repaired, see known_findings.json): the same-residue "
          "exclusion of the desolvation sum and the atom residue_label ignore the insertion code.",
